@@ -10,6 +10,9 @@
 (* string exactly one point satisfies IsDecPoint2 (the characterisation    *)
 (* determines the ordinate) and it re-encodes to the input; every point    *)
 (* round-trips; the square criterion and the inverse of F_p^2 are right.   *)
+(* The same strings are read as F_p^2 ELEMENTS with two bytes per field    *)
+(* element (plain a0 a1 = 4 bytes, packed unitary a0 sign = 3 bytes):      *)
+(* Fp2Dec accepts exactly the image of Fp2Enc and re-encodes to the input. *)
 (***************************************************************************)
 EXTENDS Codec, FiniteSets, TLC
 CONSTANTS PW, QN, A0, A1, B0, B1, TagSet
@@ -48,6 +51,26 @@ StrInv ==
     /\ (Len(s) \notin {1, 3, 5}) => cl = "bad"
     /\ (Len(s) >= 1 /\ s[1] \notin {0, 2, 3, 4}) => cl = "bad"
     /\ (Len(s) >= 2 /\ \E i \in 2..Len(s) : s[i] >= PW) => cl = "bad"
+
+(* ---- the packed form of unitary F_p^2 elements, here with TWO bytes per field element *)
+FC == [p |-> P, q |-> BFromNat(QN)]
+NUnit(a) == (a[1] * a[1] + (PW - QN) * a[2] * a[2]) % PW = 1
+F2Image(sg) == {Fp2Enc(B2(a), pk, FC, 2, sg) : a \in R \X R, pk \in BOOLEAN}
+F2ImP == F2Image(SgParity)
+F2ImH == F2Image(SgHalf)
+F2PackInv ==
+    \A sg \in {SgParity, SgHalf} :
+        LET d == Fp2Dec(s, FC, 2, sg) IN
+        /\ d.ok <=> s \in (IF sg.kind = "half" THEN F2ImH ELSE F2ImP)
+        /\ d.ok => /\ In2(d.v, P)
+                   /\ Fp2Enc(d.v, Len(s) = 3, FC, 2, sg) = s
+                   /\ Len(s) = Fp2EncSize(d.v, Len(s) = 3, FC, 2)
+                   /\ (Len(s) = 3 => F2Unitary(d.v, FC))
+        /\ (s = <<>>) =>
+              \A a \in R \X R : \A pk \in BOOLEAN :
+                 /\ F2Unitary(B2(a), FC) <=> NUnit(a)
+                 /\ Fp2Dec(Fp2Enc(B2(a), pk, FC, 2, sg), FC, 2, sg) = Ok(B2(a))
+                 /\ Len(Fp2Enc(B2(a), pk, FC, 2, sg)) = Fp2EncSize(B2(a), pk, FC, 2)
 
 RootInv == (s = <<>>) =>
     /\ \A Q \in NGroup2 : OnCurve2(Q, C2)
